@@ -339,22 +339,23 @@ type varInfo struct {
 }
 
 type unitCtx struct {
-	g       *gen
-	i       int
-	sig     classSig
-	w       *W
-	truth   *UnitTruth
-	imports map[string]bool // single-type imports present
-	fields  []varInfo
-	indent  string
-	used    map[string]bool // simple type names used in the unit (for C06)
-	cur     *FuncTruth
-	scope   []varInfo // params + locals visible
-	depth   int
-	mb      bool
-	lambdaN int
-	pending string // name of the local variable whose initializer is being written
-	budget  int
+	g        *gen
+	i        int
+	sig      classSig
+	w        *W
+	truth    *UnitTruth
+	imports  map[string]bool // single-type imports present
+	fields   []varInfo
+	indent   string
+	used     map[string]bool // simple type names used in the unit (for C06)
+	cur      *FuncTruth
+	scope    []varInfo // params + locals visible
+	depth    int
+	mb       bool
+	lambdaN  int
+	sameLine bool   // the member being written continues the line of the previous one
+	pending  string // name of the local variable whose initializer is being written
+	budget   int
 }
 
 func (g *gen) unit(i int) (string, UnitTruth) {
@@ -637,18 +638,34 @@ func (g *gen) unit(i int) (string, UnitTruth) {
 	if len(members) > 1 && rapid.IntRange(0, 2).Draw(t, "shuffleMembers") == 0 {
 		members = rapid.Permutation(members).Draw(t, "memberOrder")
 	}
+	prevName := ""
 	for mi, m := range members {
-		if mi > 0 && rapid.IntRange(0, 2).Draw(t, "blankBetweenMembers") > 0 {
+		name := s.name
+		if !m.ctor {
+			name = s.methods[m.idx].name
+		}
+		// compact layout: the member starts on the line the previous one ends on
+		// (never for two members of the same name: the model keys functions by name and line)
+		sameLine := mi > 0 && name != prevName && rapid.IntRange(0, 7).Draw(t, "memberOnSameLine") == 0
+		prevName = name
+		if mi > 0 && !sameLine {
 			w.S("\n")
+			if rapid.IntRange(0, 2).Draw(t, "blankBetweenMembers") > 0 {
+				w.S("\n")
+			}
+			if rapid.IntRange(0, 5).Draw(t, "memberComment") == 0 {
+				w.S(u.indent + "// " + g.comment("member") + "\n")
+			}
 		}
-		if rapid.IntRange(0, 5).Draw(t, "memberComment") == 0 {
-			w.S(u.indent + "// " + g.comment("member") + "\n")
-		}
+		u.sameLine = sameLine
 		if m.ctor {
 			u.ctor(m.idx, exts, typeParam)
 		} else {
 			u.method(s.methods[m.idx], exts, typeParam)
 		}
+	}
+	if len(members) > 0 {
+		w.S("\n")
 	}
 	if s.kind == "Class" && (len(usage) > 0 || usageAnn != "" || usageThrows != "") {
 		w.S("\n")
@@ -689,7 +706,7 @@ func (g *gen) unit(i int) (string, UnitTruth) {
 			}
 		}
 	}
-	if s.kind == "Class" && len(chosen) > 0 && rapid.IntRange(0, 5).Draw(t, "trailingField") == 0 {
+	if s.kind == "Class" && len(chosen) > 0 && rapid.IntRange(0, 2).Draw(t, "trailingField") == 0 {
 		// a field declared after the members; its initializer belongs to no function
 		c := chosen[0]
 		name := u.fieldName()
